@@ -75,7 +75,7 @@ def run_world(sc, i, sspec, dspec, fl, runs=1, sparse=None):
     out = []
     for k in range(1, runs + 1):
         import time
-        t0 = time.time_ns() - 2_000_000
+        t0 = time.time_ns() - 50_000_000
         case, obs, raw = ew.run_once(sc, src, dst, fl, ids, k=k)
         kv = dict(x.split("=", 1) for x in obs.split(" "))
         raw["nerr"] = int(kv["nerr"])
